@@ -124,6 +124,14 @@ def search(ctx, deep):
                 if not ok_rows:
                     bad('log_probability_density', 'row-independence', {'rows': rows}, {'batch': lp.tolist(), 'solo': solo.tolist()},
                         'row i of a batch = the row alone')
+                # the `pdf` alias is probability_density
+                Xa = np.array(B.batch(rng, 'open') + [(1e-4, 1 - 1e-4), (0.5, 0.5)], dtype=float)
+                p1 = np.asarray(c.probability_density(Xa.copy()), dtype=float)
+                p2 = np.asarray(c.pdf(Xa.copy()), dtype=float)
+                checked += 1
+                if not np.array_equal(p1, p2, equal_nan=True):
+                    bad('pdf', 'alias-differs-from-probability_density', {'rows': Xa.tolist()},
+                        {'probability_density': p1.tolist(), 'pdf': p2.tolist()}, 'pdf is a shortcut to probability_density')
                 # monotone in u, endpoints on the property's domain
                 v = rng.uniform(1e-4, 1 - 1e-4)
                 us = sorted(rng.uniform(1e-4, 1 - 1e-4) for _ in range(10))
